@@ -5,7 +5,16 @@
 // (doubles as bit patterns) followed by ` #x=<1|0>`: 1 iff no floating-point operation since
 // the construction of the problem raised FE_INEXACT (then the Rat model must agree exactly).
 // An independent oracle recomputes tables / box / gradient and appends ` !oracle <tag>`.
+// everything the header needs is included first, so that the access override touches QpMcBoxDecomp.h only
+// (it exposes BiasSolver::performBiasUpdate, a private member, to a subclass)
+#include <shark/Algorithms/QP/QpSolver.h>
+#include <shark/Algorithms/QP/QpSparseArray.h>
+#include <shark/Algorithms/QP/Impl/AnalyticProblems.h>
+#include <shark/Core/Timer.h>
+#include <shark/Data/Dataset.h>
+#define private protected
 #include <shark/Algorithms/QP/QpMcBoxDecomp.h>
+#undef private
 #include <shark/Algorithms/QP/QpSolver.h>
 #include "common.hpp"
 #include <cfenv>
@@ -133,6 +142,11 @@ struct Probe: public QpMcBoxDecomp<SynthMatrix>{
 	}
 };
 
+struct BiasProbe: public BiasSolver<SynthMatrix>{
+	BiasProbe(QpMcBoxDecomp<SynthMatrix>* p): BiasSolver<SynthMatrix>(p){}
+	void update(RealVector const& step, QpSparseArray<double> const& nu){ this->performBiasUpdate(step, nu); }
+};
+
 struct Session{
 	std::unique_ptr<SynthMatrix> km;
 	std::unique_ptr<Probe> prob;
@@ -187,7 +201,7 @@ bool c16BoxOp(std::vector<std::string> const& t, std::string& out){
 		return true;
 	}
 	if(op != "smo" && op != "killex" && op != "deactvar" && op != "deactex" && op != "shrink" && op != "unshrink" && op != "adddelta"
-		&& op != "label" && op != "select1" && op != "solve") return false;
+		&& op != "label" && op != "select1" && op != "solve" && op != "biasupd") return false;
 	if(!S.prob || !parseInts(t, 1, a)){ out = "bad-op"; return true; }
 	Probe& p = *S.prob;
 	std::string pre, stopOrc;
@@ -238,6 +252,14 @@ bool c16BoxOp(std::vector<std::string> const& t, std::string& out){
 			if(!(p.checkKKT() < stop.minAccuracy)) stopOrc += " !oracle stopped-not-kkt";
 		}else if(prop.type != QpMaxIterationsReached) stopOrc += " !oracle stop-type";
 		if(prop.iterations > stop.maxIterations) stopOrc += " !oracle iterations-exceed-limit";
+	}else if(op == "biasupd"){
+		// the real performBiasUpdate: bias step -> change of the linear part (and of the gradient)
+		std::size_t classes = S.nu.width();
+		if(a.size() != 2 * classes){ out = "bad-op"; return true; }
+		RealVector step(classes);
+		for(std::size_t c = 0; c != classes; ++c) step(c) = shiftVal(a[2*c], a[2*c+1]);
+		BiasProbe bp(&p);
+		bp.update(step, S.nu);
 	}else{ out = "bad-op"; return true; }
 	if(std::fetestexcept(FE_INEXACT)) S.exact = false;
 	std::string orc = p.oracle(S.K0, S.labels0, S.M, S.C, true) + stopOrc;
